@@ -110,7 +110,7 @@ def _warm_up(slots, direct):
     swap = {"take": "drop", "drop": "take", "sweep": "flag", "flag": "audit", "audit": "charge", "charge": "sweep", "burn": "burn"}
     variant = []
     for n, params, pre, eff in seqsem.MA_ACTIONS:
-        _, p2, pre2, eff2 = by_name[swap[n]]
+        _, p2, pre2, eff2 = by_name[swap.get(n, n)]
         if n == "burn":
             pre2, eff2 = ["and", ["p", "?i"]], ["and", ["p", "?j"], ["not", ["q", "?a", "?i"]], ["decrease", ["g"], "3"]]
         variant.append((n, params, pre2, eff2))
